@@ -498,8 +498,6 @@ class History:
             steps.append({'op': op['name'], 'method': op['method'], 'url': op['url'],
                           'fields': {k: (v if not isinstance(v, (bytes, list, dict)) else '...') for k, v in op.get('fields', {}).items()},
                           'file': op.get('file', (None,))[0], 'status': status, 'changed': changed})
-            if os.environ.get('DLV_DBG') and (op.get('file', ('',))[0].endswith('_01.mp4') or op['name'] == 'edit-media'):
-                print('DBG', steps[-1], (r.get_data(as_text=True)[:200] if r is not None else None), flush=True)
             res.count('steps')
             res.count('ops.' + op['name'])
             if changed:
